@@ -306,6 +306,188 @@ fn scenario(ctx: &Ctx, idx: u64) -> Report {
     })
 }
 
+// ---------------------------------------------------------------------------------------------
+// Real threads: the same end-to-end oracle on a multi-threaded runtime over loopback UDP and the
+// wall clock. Samples true parallel interleavings of the handler task, the bootstrap task and API
+// callers (seconds-long histories only). A wall-clock timeout is never a verdict.
+
+fn threads_scenario(ctx: &Ctx, idx: u64) -> Report {
+    use std::sync::{Arc, Mutex};
+    let mut report = Report::default();
+    let seed = sseed(ctx, "threads", idx);
+    let mut rng = ChaCha8Rng::seed_from_u64(seed);
+    let info = replay_info("C01", "threads", ctx, idx);
+    let worker_ids: Arc<Mutex<Vec<std::thread::ThreadId>>> = Arc::new(Mutex::new(Vec::new()));
+    let ids2 = worker_ids.clone();
+    let rt = tokio::runtime::Builder::new_multi_thread()
+        .worker_threads(rng.gen_range(2..=4))
+        .enable_all()
+        .on_thread_start(move || ids2.lock().unwrap().push(std::thread::current().id()))
+        .build()
+        .expect("runtime");
+    let n = rng.gen_range(2..=5usize);
+    let v6 = rng.gen_bool(0.3);
+    let ih = gen::rand_id(&mut rng);
+    let ports: Vec<Option<u16>> = (0..n).map(|_| if rng.gen_bool(0.5) { Some(rng.gen_range(1024..65535)) } else { None }).collect();
+    let announcer = rng.gen_range(0..n);
+    let api_hammer = rng.gen_bool(0.5);
+    report.evaluations += 1;
+
+    let outcome = rt.block_on(async move {
+        use tokio::net::UdpSocket;
+        let wall = |s: u64| Duration::from_secs(s);
+        let bind_addr: SocketAddr = if v6 { "[::1]:0".parse().unwrap() } else { "127.0.0.1:0".parse().unwrap() };
+        let mut sockets = Vec::new();
+        for _ in 0..n {
+            match UdpSocket::bind(bind_addr).await {
+                Ok(s) => sockets.push(s),
+                Err(e) => return Err(format!("cannot bind {bind_addr}: {e}")),
+            }
+        }
+        let addrs: Vec<SocketAddr> = sockets.iter().map(|s| s.local_addr().unwrap()).collect();
+        let mut nodes = Vec::new();
+        for (i, sock) in sockets.into_iter().enumerate() {
+            let mut b = MainlineDht::builder().set_read_only(false);
+            for (j, a) in addrs.iter().enumerate() {
+                if j != i {
+                    b = b.add_node(*a);
+                }
+            }
+            if let Some(p) = ports[i] {
+                b = b.set_announce_port(p);
+            }
+            nodes.push(b.start(sock).map_err(|e| format!("start: {e}"))?);
+        }
+        for nd in &nodes {
+            match tokio::time::timeout(wall(30), nd.bootstrapped()).await {
+                Ok(true) => {}
+                Ok(false) => return Ok(Some("bootstrapped() returned false on a live node".to_owned())),
+                Err(_) => return Err("bootstrap did not finish within 30 s of wall time".into()),
+            }
+        }
+        // everybody must know everybody before the premise of the property holds
+        let deadline = std::time::Instant::now() + wall(20);
+        loop {
+            let mut ok = true;
+            for (i, nd) in nodes.iter().enumerate() {
+                match tokio::time::timeout(wall(5), nd.load_contacts()).await {
+                    Ok(Ok((good, _))) => ok &= (0..n).filter(|j| *j != i).all(|j| good.contains(&addrs[j])),
+                    Ok(Err(_)) => return Ok(Some("load_contacts() failed on a live node".to_owned())),
+                    Err(_) => return Err("load_contacts() slow".into()),
+                }
+            }
+            if ok {
+                break;
+            }
+            if std::time::Instant::now() > deadline {
+                return Err("nodes did not all get to know each other within 20 s".into());
+            }
+            tokio::time::sleep(Duration::from_millis(200)).await;
+        }
+        // API callers hammering the nodes from other threads while the searches run
+        let stop = Arc::new(std::sync::atomic::AtomicBool::new(false));
+        let mut hammers = Vec::new();
+        if api_hammer {
+            for nd in nodes.iter().cloned() {
+                let stop = stop.clone();
+                hammers.push(tokio::spawn(async move {
+                    let mut calls = 0u64;
+                    while !stop.load(std::sync::atomic::Ordering::Relaxed) {
+                        let _ = nd.get_state().await;
+                        let _ = nd.load_contacts().await;
+                        calls += 2;
+                        tokio::task::yield_now().await;
+                    }
+                    calls
+                }));
+            }
+        }
+        let search = |nd: MainlineDht, announce: bool| async move {
+            use futures_util::StreamExt;
+            let mut stream = nd.search(btdht::InfoHash::from(ih), announce);
+            let mut items = Vec::new();
+            let end = tokio::time::timeout(wall(30), async {
+                while let Some(a) = stream.next().await {
+                    items.push(a);
+                }
+            })
+            .await;
+            (items, end.is_ok())
+        };
+        let (_, ended) = search(nodes[announcer].clone(), true).await;
+        if !ended {
+            stop.store(true, std::sync::atomic::Ordering::Relaxed);
+            return Err("announcing search did not end within 30 s".into());
+        }
+        // all other nodes search concurrently
+        let mut tasks = Vec::new();
+        for (i, nd) in nodes.iter().enumerate() {
+            if i != announcer {
+                tasks.push((i, tokio::spawn(search(nd.clone(), false))));
+            }
+        }
+        let mut expected = addrs[announcer];
+        if let Some(p) = ports[announcer] {
+            expected.set_port(p);
+        }
+        let mut verdict = None;
+        let mut checked = 0u64;
+        for (i, t) in tasks {
+            match t.await {
+                Ok((items, true)) => {
+                    checked += 1;
+                    if !items.contains(&expected) {
+                        verdict = Some(format!(
+                            "node {} searched right after node {}'s announce ended and did not find {expected} (found {items:?}); {n} nodes on loopback UDP, multi-threaded runtime",
+                            addrs[i], addrs[announcer]
+                        ));
+                    }
+                }
+                Ok((_, false)) => {
+                    stop.store(true, std::sync::atomic::Ordering::Relaxed);
+                    return Err("a search did not end within 30 s".into());
+                }
+                Err(_) => return Ok(Some("a search task panicked".to_owned())),
+            }
+        }
+        stop.store(true, std::sync::atomic::Ordering::Relaxed);
+        let mut calls = 0;
+        for h in hammers {
+            calls += h.await.unwrap_or(0);
+        }
+        Ok(verdict.or_else(|| {
+            // encode the counters in an otherwise empty verdict
+            Some(format!("OK {checked} {calls}"))
+        }))
+    });
+    drop(rt);
+    let threads = worker_ids.lock().unwrap().clone();
+    for (loc, msg) in crate::runner::take_panics_of_threads(&threads) {
+        if crate::runner::is_harness_location(&loc) {
+            report.inconclusive.push(format!("harness panic at {loc}: {msg}"));
+        } else {
+            report.panics.push((loc, msg));
+        }
+    }
+    match outcome {
+        Ok(Some(s)) if s.starts_with("OK ") => {
+            let mut it = s.split_whitespace().skip(1);
+            report.add("threads_must_find_checks", it.next().and_then(|x| x.parse().ok()).unwrap_or(0));
+            report.add("threads_concurrent_api_calls", it.next().and_then(|x| x.parse().ok()).unwrap_or(0));
+            report.count("threads_networks_completed");
+            report.distinct(format!("threads/n{n}/v6{v6}/hammer{api_hammer}"));
+        }
+        Ok(Some(what)) => report.violation("C01", "announced-peer-not-found-threads", what, info),
+        Ok(None) => {}
+        // wall-clock trouble on a loaded machine is not a verdict
+        Err(why) => {
+            report.count("threads_networks_given_up_wall_clock");
+            report.distinct(format!("threads/gave-up/{}", why.split(' ').next().unwrap_or("")));
+        }
+    }
+    report
+}
+
 pub fn check(tier: Tier) -> Check {
     Check {
         id: "C01",
@@ -319,20 +501,28 @@ pub fn check(tier: Tier) -> Check {
                every step the premise is checked (every node's good contacts == all other nodes), else the step \
                is skipped. Oracle: a search starting less than 24 h - 5 s after the end of another node's last \
                announcing search must yield that node's IP with its announce port (or UDP port); one starting \
-               more than 24 h + 5 s after must not; nothing but announce addresses is ever yielded. \
+               more than 24 h + 5 s after must not; nothing but announce addresses is ever yielded. Stream \
+               threads: 2..5 real nodes over loopback UDP on a multi-threaded runtime under the wall clock \
+               (seconds-long histories; optional API callers hammering get_state / load_contacts from other \
+               threads): after the announce every other node's concurrent search must find the announcer; \
+               wall-clock timeouts are counted, never judged. \
                distinct_nontrivial = distinct (nodes, family, latency, id placement, announcers, horizon).",
         assumptions: vec![
             "round trips stay below the node's 1.5 s query timeout (one-way latency < 0.7 s): C04 states that later answers may be missed, so 'loss-free' is read as 'answers arrive in time'",
             "schedules are sampled; virtual time makes 24 h histories run in seconds",
         ],
         deciding: vec!["C01"],
-        streams: vec![Stream::new("network", tier.pick(160, 2400), scenario).budget(tier.pick(900.0, 3000.0), tier.pick(160, 1200))],
+        streams: vec![
+            Stream::new("network", tier.pick(160, 2400), scenario).budget(tier.pick(900.0, 3000.0), tier.pick(160, 1200)),
+            Stream::new("threads", tier.pick(48, 1600), threads_scenario).budget(tier.pick(300.0, 1500.0), tier.pick(12, 200)),
+        ],
         require: vec![
             ("must_find_checks", tier.pick(500, 8_000)),
             ("must_find_checks_after_15_min", tier.pick(100, 2_000)),
             ("must_find_checks_in_the_last_hour", tier.pick(5, 100)),
             ("must_not_find_checks", tier.pick(5, 100)),
             ("announcing_searches", tier.pick(200, 3_000)),
+            ("threads_networks_completed", tier.pick(12, 200)),
         ],
         exhaustive: false,
     }
